@@ -19,7 +19,7 @@ type c05 struct{}
 func (c05) ID() string    { return "C05" }
 func (c05) Level() string { return "exploration" }
 func (c05) Rule() string {
-	return "target service decomposed into chains of 1..3 bases (4 thorough) x every assignment of link kinds {same file, other file same directory, other file in a sub-directory, other file in a sibling directory, back to the main file} x naming {distinct names, base named like the extending service where files differ} x file references {relative; all absolute} x own attributes of the most derived service {plain; tagged !override / !reset} x placement of each of 7 attributes (scalar, KEY=VALUE, plain sequence, wholesale command, build context, env_file, bind volume) on every non-empty subset of chain positions (one attribute varied at a time, and all together); every declaration-order permutation of same-file services and 8 uniform map-iteration rotations; sibling services sharing a base; four leaves sharing an intermediate service that extends a root (same / other file), each level adding 0..5 entries to one of 4 sequence attributes, under 8 rotations; all cyclic chains of length 1..4 over same/other file, and those of length 1..3 with the file of every edge spelled in 6 ways (relative, bare, through another directory, absolute, absolute not canonical; uniform and mixed) and same-file edges naming their own file; missing base service and missing file. Oracle: flattening reference (most derived wins, keys merge, sequences append base-first, paths anchored on the directory of the file that wrote them), no extends left, errors for cycles/missing. distinct = distinct (chain shape, placement) pairs"
+	return "target service decomposed into chains of 1..3 bases (4 thorough) x every assignment of link kinds {same file, other file same directory, other file in a sub-directory, other file in a sibling directory, back to the main file} x naming {distinct names, base named like the extending service where files differ} x file references {relative; all absolute} x own attributes of the most derived service {plain; tagged !override / !reset} x placement of each of 7 attributes (scalar, KEY=VALUE, plain sequence, wholesale command, build context, env_file, bind volume) on every non-empty subset of chain positions (one attribute varied at a time, and all together); every declaration-order permutation of same-file services and 8 uniform map-iteration rotations; a base naming three dependencies / networks in the short list spelling with ONE of them refined by the extending service (the others keep their defaults); sibling services sharing a base; four leaves sharing an intermediate service that extends a root (same / other file), each level adding 0..5 entries to one of 4 sequence attributes, under 8 rotations; all cyclic chains of length 1..4 over same/other file, and those of length 1..3 with the file of every edge spelled in 6 ways (relative, bare, through another directory, absolute, absolute not canonical; uniform and mixed) and same-file edges naming their own file; missing base service and missing file. Oracle: flattening reference (most derived wins, keys merge, sequences append base-first, paths anchored on the directory of the file that wrote them), no extends left, errors for cycles/missing. distinct = distinct (chain shape, placement) pairs"
 }
 func (c05) Assumptions() []string {
 	return []string{"reference flattening in props/c05.go follows the override rules of the statement for the 7 attribute kinds used"}
@@ -470,6 +470,7 @@ func (c05) Run(c *core.Ctx) {
 	}
 	c05siblings(c)
 	c05tree(c)
+	c05namedLists(c)
 	c05cycles(c)
 }
 
@@ -567,6 +568,73 @@ func c05tree(c *core.Ctx) {
 						})
 					}
 				}
+			}
+		}
+	}
+}
+
+// c05namedLists: a base that names services / networks in the short list spelling, the extending service refining ONE of
+// them in the long spelling: the others keep their defaults (directly, through an intermediate service, base in the
+// same or in another file).
+func c05namedLists(c *core.Ctx) {
+	for _, attr := range []string{"depends_on", "networks"} {
+		for _, through := range []bool{false, true} {
+			for _, cross := range []bool{false, true} {
+				attr, through, cross := attr, through, cross
+				id := fmt.Sprintf("named-list/%s/through%v/cross%v", attr, through, cross)
+				c.Do(id, func() core.Outcome {
+					baseBody, refine := "    depends_on: [t, u, v]\n", "    depends_on:\n      u: {condition: service_healthy, required: false, restart: true}\n"
+					if attr == "networks" {
+						baseBody, refine = "    networks: [n1, n2, n3]\n", "    networks:\n      n2: {aliases: [al], priority: 7}\n"
+					}
+					rest := "  t: {image: t}\n  u: {image: u}\n  v: {image: v}\nnetworks:\n  n1: {}\n  n2: {}\n  n3: {}\n"
+					baseDoc := "  b:\n    image: i\n" + baseBody
+					ref := "{service: b}"
+					files := map[string]string{}
+					if cross {
+						ref = "{file: ./base.yaml, service: b}"
+						files["base.yaml"] = "services:\n" + baseDoc + rest
+						baseDoc = ""
+					}
+					doc := "services:\n"
+					if through {
+						doc += "  s:\n    extends: {service: mid}\n" + refine + "  mid:\n    extends: " + ref + "\n"
+					} else {
+						doc += "  s:\n    extends: " + ref + "\n" + refine
+					}
+					files["compose.yaml"] = doc + baseDoc + rest
+					s := &Scn{Files: files, Main: []string{"compose.yaml"}}
+					root := s.Materialise()
+					p, err := s.LoadAt(root)
+					if err != nil {
+						return core.Outcome{Class: "err", Sample: files, Viol: &core.Violation{Key: "named-list:rejected", Msg: id + ": " + err.Error()}}
+					}
+					svc := p.Services["s"]
+					if attr == "depends_on" {
+						for _, n := range []string{"t", "v"} {
+							d, ok := svc.DependsOn[n]
+							if !ok || d.Condition != "service_started" || !d.Required || d.Restart {
+								return core.Outcome{Class: "diff", Sample: files, Viol: &core.Violation{Key: "named-list:refinement-leaks:depends_on",
+									Msg: fmt.Sprintf("%s: dependency %s of s is %+v (present=%v), expected the defaults: only u was refined", id, n, d, ok)}}
+							}
+						}
+						if d := svc.DependsOn["u"]; d.Condition != "service_healthy" || d.Required || !d.Restart {
+							return core.Outcome{Class: "diff", Sample: files, Viol: &core.Violation{Key: "named-list:refinement-lost:depends_on", Msg: fmt.Sprintf("%s: dependency u of s is %+v", id, d)}}
+						}
+					} else {
+						for _, n := range []string{"n1", "n3"} {
+							a, ok := svc.Networks[n]
+							if !ok || (a != nil && (len(a.Aliases) > 0 || a.Priority != 0)) {
+								return core.Outcome{Class: "diff", Sample: files, Viol: &core.Violation{Key: "named-list:refinement-leaks:networks",
+									Msg: fmt.Sprintf("%s: attachment %s of s is %+v (present=%v), expected a plain attachment: only n2 was refined", id, n, a, ok)}}
+							}
+						}
+						if a := svc.Networks["n2"]; a == nil || len(a.Aliases) != 1 || a.Priority != 7 {
+							return core.Outcome{Class: "diff", Sample: files, Viol: &core.Violation{Key: "named-list:refinement-lost:networks", Msg: fmt.Sprintf("%s: attachment n2 of s is %+v", id, a)}}
+						}
+					}
+					return core.Outcome{Class: id, Sample: files}
+				})
 			}
 		}
 	}
